@@ -13,9 +13,9 @@ import (
 
 	"github.com/256dpi/gomqtt/packet"
 
-	"verifharness/internal/gen"
-	"verifharness/internal/out"
-	"verifharness/internal/wire"
+	"verifharness/lib/gen"
+	"verifharness/lib/out"
+	"verifharness/lib/wire"
 )
 
 var w *out.W
